@@ -163,6 +163,9 @@ void probe(const char *name, uint64_t n) {
 void set_exact_fit(bool on) {
     g_exact_fit = on;
 }
+void set_soft_budget(bool on) {
+    if (on) g_cfg.soft_budget = true;
+}
 int current_task() {
     return g_cur ? g_cur->id : 0;
 }
@@ -1178,6 +1181,19 @@ static void trap_handler(int signo, siginfo_t *si, void *uctx) {
             g_alarm_last_steps = g_steps;
             alarm(20);
             return;
+        }
+        if (g_cfg.soft_budget) {
+            // the world declared this input legitimately astronomical (soft budget): abandoned, not reported
+            puts_(p, "ABANDON run=");
+            decu(p, g_run_index);
+            puts_(p, " seed=");
+            decu(p, g_run_seed);
+            puts_(p, " world=");
+            puts_(p, g_run_world[0] ? g_run_world : "-");
+            puts_(p, "\n");
+            ssize_t r = write(g_result_fd, buf, (size_t)(p - buf));
+            (void)r;
+            _exit(71);
         }
     }
     puts_(p, "TRAP run=");
